@@ -247,7 +247,10 @@ def strat_dickson(tier):
     return st.fixed_dictionaries({
         'kind': st.sampled_from([1, 2]), 'n': st.one_of(st.sampled_from([0, 1, 2, 3]), st.integers(0, N)),     # the exact rational oracle costs O(n^2) big-number operations per point
         'a': st.one_of(st.sampled_from([-1, 0, 1, 2, -2, 0.5]), U.nice_float(-3.0, 3.0), st.sampled_from([-3.0, 3.0, 1e-300, -1e-12])),
-        'shape': point_shapes(), 'edge': st.booleans(), 'seed': U.seeds, 'v': variants()})
+        'shape': point_shapes(), 'edge': st.booleans(), 'seed': U.seeds, 'v': variants(),
+        # the lowest orders together with the special parameter value (alpha = 0: monomials, but D_0 = 2 for the first kind) are drawn as pairs
+        'special': st.one_of(st.none(), st.none(), st.none(), st.sampled_from([[0, 0], [1, 0], [2, 0], [0, 1], [0, -1], [0, 0.0], [3, 0]])),
+    }).map(lambda c: dict(c, n=c['special'][0], a=c['special'][1]) if c.get('special') else c)
 
 
 def check_dickson(case, ctx):
